@@ -75,6 +75,11 @@ def build_recipe(rng, qt, src):
       base_cfg = recipes.CFGS[str(rng.choice(['drq8_tw', 'wo8s_tw', 'srq8a_tw', 'bad_drq16']))][1]
       import dataclasses
       alg, cfg = recipes.MINMAX, dataclasses.replace(base_cfg, skip_checks=True)
+      if rng.random() < 0.4:
+        # block-wise (sub-channel) weights are only reachable with skip_checks; the recipe must still round-trip
+        cfg = recipes.C(None, recipes.T(int(rng.choice([4, 8])), True, recipes.GR.BLOCKWISE, block_size=int(rng.choice([2, 4, 32]))),
+                        recipes.CP.INTEGER, skip_checks=True)
+        sel = 'FULLY_CONNECTED'
     elif name == 'default_none':
       alg, cfg = recipes.MINMAX, None
     elif name == 'noq_with_cfg':
